@@ -28,6 +28,7 @@ type Engine struct {
 	callSiteN   int
 	fnByKey     map[string]*ssa.Function
 	loadSecs    float64
+	copyMethods map[string]*ssa.Function
 }
 
 const contractFileName = "zz_contracts_verif.go"
@@ -107,6 +108,7 @@ func LoadEngine(repo string, patterns []string, overlay map[string][]byte) (*Eng
 			}
 		}
 	}
+	e.setupCopyFamily()
 	return e, nil
 }
 
